@@ -372,18 +372,13 @@ def extend_rule(rep, fns):
              "extend_row: result (w, h+2c); extend_col: result (w+2c, h), both views rotated90cw; extend_boundary: extend_row(extend_col) or the (w+2c, h+2c) window at (-c,-c)")
     impl = [f for f in fns if f["name"] == "boost::gil::detail::extend_row_impl"]
     done = set()
-    for f in impl:
-        sv, rv, cnt, opt = [q["name"] for q in f["params"]]
-        tag = f["params"][0]["type"][:80]
-        if "rotated" in "" or tag in done:
-            pass
+    for f0 in impl:
+        tag = f0["params"][0]["type"][:80]
         done.add(tag)
         rep.count("obligations:V7")
-        c_ = "extend_count_"
-        decl = {dd["name"]: R.key(dd.get("init")) for dn, _ in R.find(f["body"], lambda x: x.get("k") == "Decl") for dd in dn["decls"] if dd.get("name") and dd.get("init") is not None}
+        f = R.canonize(f0)          # $0 source, $1 result, $2 count, $3 policy; loop variables #k; named values inlined
+        sv, rv, c_, opt = "$0", "$1", "$2", "$3"
         prob = []
-        if decl.get(c_) not in (cnt, "static_cast<std::ptrdiff_t>(%s)" % cnt):
-            prob.append("%s = %s" % (c_, decl.get(c_)))
         H = "%s.height()" % sv
         # sign classes of (i - c, i - (c+h)) that are consistent with h >= 0; lo: i < c, mid: c <= i < c+h, hi: i >= c+h
         REG = [(-1, -1), (0, -1), (0, 0), (1, -1), (1, 0), (1, 1)]
@@ -404,16 +399,15 @@ def extend_rule(rep, fns):
                 return {"<": sg < 0, "<=": sg <= 0, ">": sg > 0, ">=": sg >= 0, "==": sg == 0, "!=": sg != 0}[op]
             return val
         copies = []
-        for c, pth in R.calls_in(f["body"], lambda n: n.endswith("assign_pixels") or n in ("std::fill_n",)):
+        for c, pth in R.calls_in(f["body"], lambda n: n.endswith("assign_pixels") or n in ("std::fill_n", "std::fill")):
             opts = [(op, l, r) for op, l, r in R.guards(pth) if opt in (l, r)]
             loops = [a for a, fld, _ in pth if a.get("k") == "For" and fld == "body"]
             if len(loops) != 1:
-                prob.append("%s outside a single row loop" % R.key(c)[:60])
+                unknown.append("%s outside a single row loop" % R.key(c)[:60])
                 continue
             lp = loops[0]
-            init = R.strip(lp["init"])
-            iv = init["decls"][0]["name"]
-            if R.key(init["decls"][0].get("init")) != "0" or R.key(lp["cond"]) != "(%s < %s.height())" % (iv, rv) or R.key(lp["inc"]) not in ("(%s++)" % iv, "(++%s)" % iv):
+            iv = R.for_shape(lp)[0]
+            if not R.counts_up(lp, "%s.height()" % rv):
                 prob.append("row loop of %s does not run over [0, result.height())" % R.key(c)[:40])
             li = [i for i, z in enumerate(pth) if z[0] is lp][0]
             inner_ifs = [(a, fld) for a, fld, _ in pth[li + 1:] if a.get("k") == "If" and fld in ("then", "else")]
@@ -428,7 +422,6 @@ def extend_rule(rep, fns):
                     if ok:
                         hit.append(rg)
                 regions = {NAME(rg) for rg in hit}
-                # the path condition must be a union of whole documented regions
                 exact = all((rg in hit) == (NAME(rg) in regions) for rg in REG)
             except KeyError as e:
                 unknown.append("condition %s not over i, c, c+h" % e)
@@ -436,70 +429,75 @@ def extend_rule(rep, fns):
             if not exact:
                 prob.append("%s runs for the rows %s of (sign(i-c), sign(i-c-h)): not a union of the regions below / inside / above" % (R.key(c)[:50], hit))
             policy = [(l if r == opt else r).split("::")[-1] for op, l, r in opts if op == "=="]
-            copies.append((policy[-1] if policy else "?", R.key(c), frozenset(regions), iv))
+            copies.append((policy[-1] if policy else "?", R.key(c).replace(iv, "#"), frozenset(regions)))
+        WIN = "subimage_view(%s,0,(-%s),%s.width(),(%s + (2 * %s)))" % (sv, c_, sv, H, c_)
         want = {
-            "extend_constant": {("assign_pixels(%s.row_begin((%%s - %s)),%s.row_end((%%s - %s)),%s.row_begin(%%s))" % (sv, c_, sv, c_, rv), frozenset(["mid"])),
-                                ("assign_pixels(%s.row_begin(0),%s.row_end(0),%s.row_begin(%%s))" % (sv, sv, rv), frozenset(["lo"])),
-                                ("assign_pixels(%s.row_begin((%s - 1)),%s.row_end((%s - 1)),%s.row_begin(%%s))" % (sv, H, sv, H, rv), frozenset(["hi"]))},
-            "extend_zero": {("assign_pixels(%s.row_begin((%%s - %s)),%s.row_end((%%s - %s)),%s.row_begin(%%s))" % (sv, c_, sv, c_, rv), frozenset(["mid"])),
-                            ("fill_n(%s.row_begin(%%s),%s.width(),acc_zero)" % (rv, rv), frozenset(["lo", "hi"]))},
-            "extend_padded": {("assign_pixels(original_view.row_begin(%s),original_view.row_end(%s),%s.row_begin(%s))" % ("%s", "%s", rv, "%s"), frozenset(["lo", "mid", "hi"]))},
+            "extend_constant": {("assign_pixels(%s.row_begin((# - %s)),%s.row_end((# - %s)),%s.row_begin(#))" % (sv, c_, sv, c_, rv), frozenset(["mid"])),
+                                ("assign_pixels(%s.row_begin(0),%s.row_end(0),%s.row_begin(#))" % (sv, sv, rv), frozenset(["lo"])),
+                                ("assign_pixels(%s.row_begin((%s - 1)),%s.row_end((%s - 1)),%s.row_begin(#))" % (sv, H, sv, H, rv), frozenset(["hi"]))},
+            "extend_zero": {("assign_pixels(%s.row_begin((# - %s)),%s.row_end((# - %s)),%s.row_begin(#))" % (sv, c_, sv, c_, rv), frozenset(["mid"])),
+                            ("fill_n(%s.row_begin(#),%s.width(),{Z})" % (rv, rv), frozenset(["lo", "hi"]))},
+            "extend_padded": {("assign_pixels(%s.row_begin(#),%s.row_end(#),%s.row_begin(#))" % (WIN, WIN, rv), frozenset(["lo", "mid", "hi"]))},
         }
         got = {}
-        for pol, k, rg, iv in copies:
-            got.setdefault(pol, set()).add((k, rg, iv))
+        for pol, k, rg in copies:
+            got.setdefault(pol, set()).add((k, rg))
+        zenv = None
         for pol, w in want.items():
-            g = got.get(pol, set())
-            wi = set()
-            for k, rg, iv in g:
-                wi |= {(t.replace("%s", iv) if "%s" in t else t, r) for t, r in w}
-            if {(k, rg) for k, rg, iv in g} != wi or not g:
-                prob.append("%s: row copies %s, documented %s" % (pol, sorted((k, sorted(rg)) for k, rg, iv in g), sorted((t, sorted(r)) for t, r in w)))
+            gk = got.get(pol, set())
+            env = R.bind([k for k, _ in gk], [t for t, _ in w])
+            if env is None or {(R.fill_in(t, env), r) for t, r in w} != gk:
+                prob.append("%s: row copies %s, documented %s" % (pol, sorted((k, sorted(rg)) for k, rg in gk), sorted((t, sorted(r)) for t, r in w)))
+            elif "Z" in env:
+                zenv = env["Z"]
         if set(got) - set(want):
-            prob.append("copies under an unknown policy: %s" % sorted(set(got) - set(want)))
-        if decl.get("original_view") != "subimage_view(%s,0,(-%s),%s.width(),(%s + (2 * %s)))" % (sv, cnt, sv, H, cnt):
-            prob.append("padded window %s" % decl.get("original_view"))
+            unknown.append("copies under an unknown policy: %s" % sorted(set(got) - set(want)))
         zero = [R.key(c) for c, _ in R.calls_in(f["body"], lambda n: "pixel_zeros_t" in n)]
-        if zero != ["pixel_zeros_t{}(acc_zero)"] and not any("acc_zero" in z for z in zero):
-            prob.append("zero pixel built by %s" % zero)
+        if zenv is not None and zero != ["pixel_zeros_t{}(%s)" % zenv]:
+            prob.append("the fill value %s is not the zero pixel: %s" % (zenv, zero))
         key = "V7:extend_row_impl<%s>" % ("rotated" if "step" in tag or "transposed" in tag.lower() else "plain")
-        if unknown:
+        if prob:
+            rep.violation("V7-extend", key, R.fn_where(f0), {"problems": prob + unknown})
+        elif unknown:
             rep.incon("V7-extend", key, {"unrecognised": unknown})
-        elif prob:
-            rep.violation("V7-extend", key, R.fn_where(f), {"problems": prob})
         else:
-            rep.ok("V7-extend", key, {"copies": sorted((pol, sorted(rg)) for pol, k, rg, iv in copies)})
-    # the three public functions
-    for f in fns:
-        short = f["name"].split("::")[-1]
-        if f["name"] not in ("boost::gil::extend_row", "boost::gil::extend_col", "boost::gil::extend_boundary") or (short, f["params"][0]["type"][:60]) in done:
+            rep.ok("V7-extend", key, {"copies": sorted((pol, sorted(rg)) for pol, k, rg in copies)})
+    # the three public functions (canonical form: $0 view, $1 count, $2 policy; result image %k)
+    for f0 in fns:
+        short = f0["name"].split("::")[-1]
+        if f0["name"] not in ("boost::gil::extend_row", "boost::gil::extend_col", "boost::gil::extend_boundary") or (short, f0["params"][0]["type"][:60]) in done:
             continue
-        done.add((short, f["params"][0]["type"][:60]))
-        rn = R.param_renamer(f)
-        decl = {dd["name"]: rn(R.key(dd.get("init"))) for dn, _ in R.find(f["body"], lambda x: x.get("k") == "Decl") for dd in dn["decls"] if dd.get("name") and dd.get("init") is not None}
-        calls = [rn(R.key(c)) for c, _ in R.calls_in(f["body"], lambda n: n.split("::")[-1] in ("extend_row_impl", "extend_row", "extend_col", "assign_pixels"))]
-        rets = [rn(R.key(x["e"])) for x, _ in R.find(f["body"], lambda x: x.get("k") == "Return")]
+        done.add((short, f0["params"][0]["type"][:60]))
+        f = R.canonize(f0)
+        facts = ["%s := %s" % (dd["name"], R.key(dd["init"])) for dn, _ in R.find(f["body"], lambda x: x.get("k") == "Decl") for dd in dn["decls"] if dd.get("name") and dd.get("init") is not None]
+        calls = [R.key(c) for c, _ in R.calls_in(f["body"], lambda n: n.split("::")[-1] in ("extend_row_impl", "extend_row", "extend_col", "assign_pixels"))]
+        rets = [R.key(x["e"]) for x, _ in R.find(f["body"], lambda x: x.get("k") == "Return")]
         rep.count("obligations:V7")
-        det = {"decls": decl, "calls": calls, "returns": rets}
+        det = {"decls": facts, "calls": calls, "returns": rets}
+        IMG = "{I} := image{%s,0,allocator{}}"
         if short == "extend_row":
-            ok = decl.get("result_img", "").startswith("image{$0.width(),($0.height() + (2 * $1)),") and decl.get("result_view") == "view(result_img)" and \
-                calls == ["extend_row_impl($0,result_view,$1,$2)"] and rets == ["result_img"]
+            env = R.bind(facts + calls, [IMG % "$0.width(),($0.height() + (2 * $1))", "{V} := view({I})", "extend_row_impl($0,{V},$1,$2)"]) or \
+                R.bind(facts + calls, [IMG % "$0.width(),($0.height() + (2 * $1))", "extend_row_impl($0,view({I}),$1,$2)"])
+            ok = env is not None and rets == [env["I"]]
         elif short == "extend_col":
-            ok = decl.get("result_img", "").startswith("image{($0.width() + (2 * $1)),$0.height(),") and decl.get("src_view_rotate") == "rotated90cw_view($0)" and \
-                decl.get("result_view") == "rotated90cw_view(view(result_img))" and calls == ["extend_row_impl(src_view_rotate,result_view,$1,$2)"] and rets == ["result_img"]
+            env = R.bind(facts + calls, [IMG % "($0.width() + (2 * $1)),$0.height()", "{V} := rotated90cw_view(view({I}))", "extend_row_impl(rotated90cw_view($0),{V},$1,$2)"]) or \
+                R.bind(facts + calls, [IMG % "($0.width() + (2 * $1)),$0.height()", "extend_row_impl(rotated90cw_view($0),rotated90cw_view(view({I})),$1,$2)"])
+            ok = env is not None and rets == [env["I"]]
         else:
-            gpad = False
+            WIN = "subimage_view($0,(-$1),(-$1),($0.width() + (2 * $1)),($0.height() + (2 * $1)))"
+            env = R.bind(facts + calls, [IMG % "($0.width() + (2 * $1)),($0.height() + (2 * $1))", "{V} := view({I})", "assign_pixels(%s.row_begin(#0),%s.row_end(#0),{V}.row_begin(#0))" % (WIN, WIN),
+                                         "{A} := extend_col($0,$1,$2)"])
+            gpad, lp_ok = False, False
             for c, pth in R.calls_in(f["body"], lambda n: n.endswith("assign_pixels")):
                 gpad = any(op == "==" and "extend_padded" in l + r for op, l, r in R.guards(pth))
-            ok = decl.get("result_img", "").startswith("image{($0.width() + (2 * $1)),($0.height() + (2 * $1)),") and \
-                decl.get("original_view") == "subimage_view($0,(-$1),(-$1),($0.width() + (2 * $1)),($0.height() + (2 * $1)))" and gpad and \
-                "assign_pixels(original_view.row_begin(i),original_view.row_end(i),result_view.row_begin(i))" in calls and \
-                decl.get("auxilary_img") == "extend_col($0,$1,$2)" and "extend_row(view(auxilary_img),$1,$2)" in calls and "result_img" in rets
+                lps = [a for a, fld, _ in pth if a.get("k") == "For" and fld == "body"]
+                lp_ok = env is not None and len(lps) == 1 and R.counts_up(lps[0], "%s.height()" % env["V"])
+            ok = env is not None and gpad and lp_ok and sorted(rets) == sorted([env["I"], "extend_row(view(%s),$1,$2)" % env["A"]])
         k = "V7:%s" % short
         if ok:
             rep.ok("V7-extend", k, calls)
         else:
-            rep.violation("V7-extend", k, R.fn_where(f), det)
+            rep.violation("V7-extend", k, R.fn_where(f0), det)
     rep.floor("obligations:V7", 5)
 
 
